@@ -148,6 +148,12 @@ let dispatch cmd args =
       let (et, nroot) = parse_ety t in
       let f = (if cmd = "duper" then dfl_uper else dfl_uper_count_only) in
       Some (hex_opt (f (std = "1") (dfl_of dr) (dfl_of da) et (eval_of nroot v)))
+  | ("gtcanon" | "utcanon" | "gtcanonfast"), [h; lg] ->
+      let f = (match cmd with "gtcanon" -> gt_canon | "utcanon" -> ut_canon | _ -> gt_canon_fast) in
+      Some (match f (bytes_of_hex h) (cz_of_string lg) with Some bs -> hex_of_bytes bs | None -> "FAIL")
+  | ("gtfraccmp" | "gtfraccmpfix"), [av; ad; bv; bd] ->
+      let f = (if cmd = "gtfraccmp" then frac_cmp_c else frac_cmp_fix) in
+      Some (match f (cz_of_string av) (cz_of_string ad) (cz_of_string bv) (cz_of_string bd) with Lt -> "-1" | Eq -> "0" | Gt -> "1")
   | ("fragwhole" | "frageach"), [k; ms] ->
       let f = (if cmd = "fragwhole" then frag_whole else frag_each) in
       Some (show_bits (f (cz_of_string k) (members_of ms)))
